@@ -11,7 +11,7 @@
  *   rem <num>
  *   enc                             encode + byte dump + re-parse for udp, tcp, ws
  *   fromwire                        replace the PDU by the result of parsing its own UDP encoding
- *   sweep <proto> <kind>            mutate the current encoding at every position and parse (kind: nib trunc app flip ins)
+ *   sweep <proto> <kind>            mutate the current encoding at every position and parse (kind: nib trunc app flip ins; same: unmodified)
  *   hex <proto> <hexbytes>          parse literal bytes
  *   rand <proto> <n> <maxlen> <seed>  parse n random strings
  *   E
@@ -243,7 +243,7 @@ int main(int argc, char **argv) {
       pi = pidx(b);
       h = encode(pi, &st);
       n = h + pdu->used_size;
-      if (!h || n > 4096) continue;
+      if (!h || (n > 4096 && strcmp(a, "same"))) continue;     /* position sweeps only for short encodings */
       cp = malloc(n + 2);
       m = malloc(n + 2);
       memcpy(cp, st, n);
@@ -258,6 +258,8 @@ int main(int argc, char **argv) {
         }
       } else if (!strcmp(a, "trunc")) {
         for (p = 0; p < n; p++) parse_log("Parse", pi, cp, p);
+      } else if (!strcmp(a, "same")) {
+        parse_log("Parse", pi, cp, n);                        /* the encoding as it is (it may be that of a PDU no decoder should take) */
       } else if (!strcmp(a, "app")) {
         static const uint8_t V[] = {0xff, 0x00, 0xd0, 0xe0, 0x11, 0xf1};
         int k;
